@@ -523,3 +523,62 @@ def x_ctor(p):
         "out": outcome_class(exc),
         "obs": obs,
     }
+
+
+# ----------------------------------------------------------------------------- C14
+def plan_params_python(p):
+    vmax = p["vmax"]
+    return dict(xmin=p["xmin"][0] / p["xmin"][1], xmax=p["xmax"][0] / p["xmax"][1], R=p["R"], C=p["C"],
+                stock=p["stock"][0] / p["stock"][1], mode=p["mode"],
+                vmax=(vmax[0] if len(vmax) == 1 and p.get("scalar_vmax", True) else list(vmax)),
+                min_transfer=p["mint10"] / 10)
+
+
+def project_plan(plan, p):
+    """Project a DilutionPlan object: instructions as whole microlitres, concentrations as rationals."""
+    from fractions import Fraction
+
+    R, C = p["R"], p["C"]
+    instr = []
+    for (c, dsteps, src, v) in plan.instructions:
+        vs, whole = [], True
+        for x in np.asarray(v, dtype=float).flatten():
+            if float(x).is_integer() and abs(x) < 2**31:
+                vs.append(int(x))
+            else:
+                vs.append(-1)
+                whole = False
+        instr.append({"col": int(c) + 1, "src": 0 if isinstance(src, str) else int(src) + 1, "v": vs, "whole": whole, "dsteps": int(dsteps)})
+    x = np.asarray(plan.x, dtype=float)
+    xs, supported = [], x.shape == (R, C)
+    if supported:
+        for r in range(R):
+            row = []
+            for c in range(C):
+                fr = Fraction(float(x[r, c])).limit_denominator(10**6)
+                if abs(float(fr) - float(x[r, c])) > 1e-12 * max(1.0, abs(float(x[r, c]))):
+                    supported = False
+                row.append([fr.numerator, fr.denominator])
+            xs.append(row)
+    def whole(v):
+        f = float(v)
+        return int(f) if f.is_integer() and abs(f) < 2**31 else -1
+    return {"instr": instr, "x": xs, "xsup": bool(supported), "vstock": whole(plan.v_stock), "vdiluent": whole(plan.v_diluent),
+            "vmaxobs": [whole(v) for v in np.asarray(plan.vmax).flatten()], "Robs": int(plan.R), "Cobs": int(plan.C)}
+
+
+@executor("dilplan")
+def x_dilplan(p):
+    rt = robotools()
+    exc, proj = None, {"instr": [], "x": [], "xsup": False, "vstock": -1, "vdiluent": -1, "vmaxobs": [], "Robs": 0, "Cobs": 0}
+    try:
+        plan = rt.DilutionPlan(**plan_params_python(p))
+        proj = project_plan(plan, p)
+    except Exception as e:  # noqa
+        exc = e
+    vmax = p["vmax"] if len(p["vmax"]) == p["C"] else [p["vmax"][0]] * p["C"]
+    rec = {"fn": "dilplan", "id": f"R={p['R']} C={p['C']} {p['mode']} stock={p['stock']} xmax={p['xmax']} xmin={p['xmin']} vmax={p['vmax']} mint10={p['mint10']}",
+           "R": p["R"], "C": p["C"], "stock": p["stock"], "vmax": vmax, "mint10": p["mint10"], "out": outcome_class(exc),
+           "small": max(vmax) <= 50}
+    rec.update(proj)
+    return rec
